@@ -355,3 +355,54 @@ class SplitMix64:
 
 def hx(b):
     return b.hex() if len(b) else "-"
+
+
+# ---------------------------------------------------------------------------------------------
+# source fingerprints: which of the files a property is anchored in differ from the tree the
+# model was last validated against (FINGERPRINTS.json, written by tools/gen_fingerprints.py from
+# /repo's HEAD).  A difference is NOT an alarm; it only makes the quick tier explore as deeply
+# as the thorough tier (runner.py), because that is when the hand-written model is most likely stale.
+FINGERPRINTS = os.path.join(ROOT, "FINGERPRINTS.json")
+
+
+def normalise_rust(text):
+    import re
+    out = []
+    for line in text.splitlines():
+        s = line.strip()
+        if s.startswith("//"):
+            continue
+        s = re.sub(r"\s+", " ", s)
+        if s:
+            out.append(s)
+    return "\n".join(out)
+
+
+def fingerprint_text(text):
+    import hashlib
+    return hashlib.sha256(normalise_rust(text).encode()).hexdigest()[:24]
+
+
+def property_anchor_files(pid):
+    for l in open(os.path.join(ROOT, "properties.jsonl")):
+        p = json.loads(l)
+        if p["id"] == pid:
+            return list(p.get("anchors", {}).get("files", []))
+    return []
+
+
+def changed_anchor_files(pid):
+    try:
+        base = json.load(open(FINGERPRINTS))["files"]
+    except Exception:
+        return []
+    changed = []
+    for f in property_anchor_files(pid):
+        path = os.path.join(REPO, f)
+        try:
+            fp = fingerprint_text(open(path, encoding="utf-8", errors="replace").read())
+        except OSError:
+            fp = "missing"
+        if base.get(f) != fp:
+            changed.append(f)
+    return changed
